@@ -162,10 +162,11 @@ def be32 (v : Nat) : Bytes := beBytes 32 v
 def liftX (x : Nat) (odd : Bool) : Option Point :=
   if x ≥ p then none else
     let a := (x * x % p * x + 7) % p
-    let y := powMod a ((p + 1) / 4) p
+    let y := powMod a ((p + 1) / 4) p % p
     if y * y % p != a then none
+    else if y == 0 && odd then none                 -- (x, 0) has no odd representative (SEC 1 §2.3.4)
     else
-      let y := if (y % 2 == 1) == odd then y else (p - y) % p
+      let y := if (y % 2 == 1) == odd then y else p - y
       some (.aff x y)
 
 def encode (P : Point) (compressed : Bool) : Bytes :=
